@@ -104,6 +104,10 @@ func GenHostile(t *rapid.T) *HostileCase {
 		if rapid.IntRange(0, 5).Draw(t, "dup") == 0 {
 			s = strings.Replace(s, `{`, `{"type":"user","key":"2",`, 1)
 		}
+		if rapid.IntRange(0, 4).Draw(t, "trailing") == 0 {
+			// a message followed by more bytes: not one JSON document
+			s += rapid.SampledFrom([]string{"}", "{", " x", "]", "\x00", `{"headers":{"control":"reset"}}`, ` {"type":"user"`, ","}).Draw(t, "tail")
+		}
 		c.Data = s
 	}
 	return c
